@@ -15,7 +15,9 @@ Leaves0 ==
          <<"pipeline", "charge_generation", "m2", "arguments", "c">>, <<"pipeline", "charge_generation", "m2", "enabled">> }
 Cfg0 == [leaves |-> Leaves0, disabled |-> { <<"pipeline", "charge_generation", "m2">> }]
 Tree0 == [l \in Leaves0 |-> IF FieldOf(l) \in Limited THEN Num(IF FieldOf(l) \in {"row", "col", "adc_bit_resolution"} THEN 8 ELSE 1, 1)
-                             ELSE Txt("init")]
+                             ELSE IF FieldOf(l) = "enabled"
+                                    THEN Txt(IF SubSeq(l, 1, 3) \in Cfg0.disabled THEN "bool:False" ELSE "bool:True")
+                                    ELSE Txt("init")]
 
 \* key variants of a leaf: exact, last component misspelt, a middle component misspelt,
 \* truncated, an undeclared argument
